@@ -462,7 +462,7 @@ func flagPassed(fs *flag.FlagSet, name string) bool {
 }
 
 func structuralKind(name string) bool {
-	for _, k := range []string{"/post/", "/lemma/", "/loop-entry/", "/loop-back/", "/pre/", "/frame/", "/table/", "/token/", "/callpre/"} {
+	for _, k := range []string{"/post/", "/lemma/", "/loop-entry/", "/loop-back/", "/pre/", "/frame/", "/table/", "/token/", "/callpre/", "/nocall/"} {
 		if strings.Contains(name, k) {
 			return true
 		}
